@@ -64,20 +64,23 @@ type firedRec struct {
 
 // Drv drives one real world and monitors it against the shared model.
 type Drv struct {
-	Name   string
-	W      *ecs.World
-	U      ecs.Unsafe
-	Cfg    Config
-	M      *Model
-	ID     [u.N]ecs.ID
-	Maps   [u.N]u.MapT
-	tmaps  map[int]typed.TMap
-	H      []ecs.Entity
-	ByH    map[ecs.Entity]EID
-	SF     []sfilter
-	Obs    []obsInst
-	Q      []queryInst
-	Custom [2]ecs.EventType
+	Name     string
+	W        *ecs.World
+	U        ecs.Unsafe
+	Cfg      Config
+	M        *Model
+	ID       [u.N]ecs.ID
+	LateID   []ecs.ID // component types registered during the history (KRegType)
+	lateUsed []int
+	lateMaps map[int]any
+	Maps     [u.N]u.MapT
+	tmaps    map[int]typed.TMap
+	H        []ecs.Entity
+	ByH      map[ecs.Entity]EID
+	SF       []sfilter
+	Obs      []obsInst
+	Q        []queryInst
+	Custom   [2]ecs.EventType
 
 	// ForceUnsafe makes the driver execute every op through the ID-based API,
 	// decomposing batch ops into per-entity calls (C14 / C06 twin).
@@ -101,6 +104,8 @@ type Drv struct {
 	reusedFilter    bool
 	by              *bystander
 	NoBystander     bool
+	StatsInCb       bool // call Stats() inside batch and observer callbacks (C19)
+	statsCbCtr      int
 	curExch         typed.TExch // exchange object of the running op
 	args            []argGuard
 	Guard           bool // argument slices are watched / shared (off for concurrent use of the driver)
@@ -115,6 +120,9 @@ type Stats struct {
 	Panics           int64
 	BystanderOps     int64
 	ObserverReuse    int64
+	RelListsShared   int64 // relation argument lists (built with Rel/RelIdx) handed to a world after another world had used them
+	LateRoundTrips   int64 // add/query/remove round trips with a component type registered in mid-history
+	StatsInCallback  int64 // Stats() rules applied from inside batch and observer callbacks
 	FilterReuse      int64
 	NestedRows       int64
 	NestedSameObject int64 // rejected calls made from a callback through the object the running op was called on
@@ -230,6 +238,9 @@ func (d *Drv) hs(es []EID) []ecs.Entity {
 
 // RelCache holds the world-independent relation argument lists of the current case (nil: no sharing).
 var RelCache map[string][]ecs.Relation
+
+// relCacheOwner remembers the world a cached list was first handed to (coverage counter only).
+var relCacheOwner map[string]*ecs.World
 
 // argGuard watches one slice handed to the library as an argument: the library must neither modify it (including the
 // spare capacity behind its length) nor keep using it after the call returned - the caller may reuse it as a scratch buffer.
@@ -389,6 +400,9 @@ func (d *Drv) rels(rs []RelT, order []int, style int) []ecs.Relation {
 			key = b.String()
 		}
 		if c, ok := RelCache[key]; ok && key != "" {
+			if relCacheOwner[key] != d.W {
+				d.Stat.RelListsShared++ // a list first handed to another world
+			}
 			return c
 		}
 	}
@@ -397,6 +411,10 @@ func (d *Drv) rels(rs []RelT, order []int, style int) []ecs.Relation {
 		defer func() { seal(d, out) }()
 	} else {
 		RelCache[key] = out
+		if relCacheOwner == nil || len(RelCache) == 1 {
+			relCacheOwner = map[string]*ecs.World{}
+		}
+		relCacheOwner[key] = d.W
 	}
 	for i, r := range rs {
 		st := style
